@@ -16,6 +16,9 @@
 #include <booster/aio/io_service.h>
 #include <booster/aio/stream_socket.h>
 #include <booster/aio/deadline_timer.h>
+#include <booster/aio/acceptor.h>
+#include <booster/aio/endpoint.h>
+#include <booster/aio/buffer.h>
 #include <booster/aio/reactor.h>
 #include <booster/aio/aio_category.h>
 #include <booster/posix_time.h>
@@ -192,6 +195,9 @@ struct scenario {
 	std::vector<std::unique_ptr<io::basic_io_device> > socks;
 	std::vector<int> ours,peers;
 	std::vector<int> kind,peer_idx;   // 0 socket, 1 pipe read end, 2 pipe write end; index of the other end
+	std::vector<bool> raw_closed;     // the application closed the descriptor itself (::close + cancel_io_events)
+	std::vector<bool> reopenable;     // closed while run() was executing and no reset() since: the number is still free
+	char iobuf[8];
 	std::vector<std::unique_ptr<io::deadline_timer> > timers;
 	std::vector<std::vector<op_t> > progs;
 	std::vector<hinfo> hs;
@@ -239,6 +245,12 @@ struct ev_call : public booster::callable<void(error_code const &)> {
 	void operator()(error_code const &e) { sc->invoked(id,code_name(e)); }
 	~ev_call() { sc->destroyed(id); }
 };
+struct io_call : public booster::callable<void(error_code const &,size_t)> {
+	scenario *sc; int id;
+	io_call(scenario *s,int i):sc(s),id(i){}
+	void operator()(error_code const &e,size_t) { sc->invoked(id,code_name(e)); }
+	~io_call() { sc->destroyed(id); }
+};
 struct fn_call : public booster::callable<void()> {
 	scenario *sc; int id;
 	fn_call(scenario *s,int i):sc(s),id(i){}
@@ -259,7 +271,7 @@ static io::basic_io_device *sock_of(scenario *sc,std::string const &f,std::uniqu
 {
 	if(f=="x") { tmp.reset(new io::stream_socket(*sc->srv)); return tmp.get(); }
 	size_t i=strtoul(f.c_str(),0,10);
-	if(i>=sc->socks.size()) { tmp.reset(new io::stream_socket(*sc->srv)); return tmp.get(); }
+	if(i>=sc->socks.size() || sc->raw_closed[i]) { tmp.reset(new io::stream_socket(*sc->srv)); return tmp.get(); }
 	return sc->socks[i].get();
 }
 
@@ -302,9 +314,65 @@ static void do_op(scenario *sc,op_t const &o)
 		std::unique_ptr<io::basic_io_device> tmp;
 		sock_of(sc,o.a[0],tmp)->cancel();
 	}
+	else if((o.name=="xc" || o.name=="xr" || o.name=="xw") && o.a.size()==2) {
+		// device wrappers on an unusable descriptor: never opened ("x") or closed device i
+		std::unique_ptr<io::basic_io_device> tmp;
+		io::basic_io_device *dev=sock_of(sc,o.a[0],tmp);
+		io::stream_socket *s=dynamic_cast<io::stream_socket *>(dev);
+		if(!s || s->native()!=io::invalid_socket) { sc->bad=true; return; }
+		int id=sc->new_handler('p',0,atoi(o.a[1].c_str()));
+		if(o.name=="xc") {
+			booster::intrusive_ptr<ev_call> p(new ev_call(sc,id));
+			s->async_connect(io::endpoint("127.0.0.1",1),io::event_handler(p));
+		}
+		else {
+			booster::intrusive_ptr<io_call> p(new io_call(sc,id));
+			if(o.name=="xr") s->async_read_some(io::buffer(sc->iobuf,1),io::io_handler(p));
+			else s->async_write_some(io::buffer(static_cast<char const *>(sc->iobuf),1),io::io_handler(p));
+		}
+	}
+	else if(o.name=="xa" && o.a.size()==2) {
+		io::acceptor acc(srv);
+		if(o.a[0]=="y") { error_code e; acc.open(io::pf_inet,e); acc.close(e); }
+		io::stream_socket target(srv);
+		int id=sc->new_handler('p',0,atoi(o.a[1].c_str()));
+		booster::intrusive_ptr<ev_call> p(new ev_call(sc,id));
+		acc.async_accept(target,io::event_handler(p));
+	}
+	else if(o.name=="rx" && o.a.size()==1) {
+		size_t i=strtoul(o.a[0].c_str(),0,10);
+		if(i<sc->socks.size() && !sc->raw_closed[i] && sc->socks[i]->native()!=io::invalid_socket) {
+			int fd=sc->socks[i]->native();
+			::close(fd);
+			srv.cancel_io_events(fd);
+			sc->socks[i]->release();     // the device must not close (or cancel) the number again
+			sc->raw_closed[i]=true;
+			sc->reopenable[i]=sc->started;
+		}
+	}
+	else if(o.name=="ro" && o.a.size()==1) {
+		size_t i=strtoul(o.a[0].c_str(),0,10);
+		if(i<sc->socks.size() && sc->kind[i]==0 && sc->reopenable[i] && (sc->raw_closed[i] || sc->socks[i]->native()==io::invalid_socket)) {
+			sc->reopenable[i]=false;
+			int target=sc->ours[i];
+			int fds[2];
+			if(::socketpair(AF_UNIX,SOCK_STREAM,0,fds)<0) { sc->bad=true; return; }
+			int hi=::fcntl(fds[1],F_DUPFD,200); ::close(fds[1]);
+			if(fds[0]!=target) {
+				if(::fcntl(target,F_GETFD)!=-1) { ::close(fds[0]); ::close(hi); sc->bad=true; return; }   // number taken by somebody else
+				if(::dup2(fds[0],target)<0) { sc->bad=true; return; }
+				::close(fds[0]);
+			}
+			if(sc->peers[i]>=0) ::close(sc->peers[i]);
+			sc->peers[i]=hi;
+			if(sc->raw_closed[i]) { sc->socks[i].reset(new io::stream_socket(srv)); sc->raw_closed[i]=false; }
+			sc->socks[i]->assign(target);
+		}
+	}
 	else if(o.name=="cl" && o.a.size()==1) {
 		size_t i=strtoul(o.a[0].c_str(),0,10);
-		if(i<sc->socks.size()) {
+		if(i<sc->socks.size() && !sc->raw_closed[i]) {
+			if(sc->socks[i]->native()!=io::invalid_socket) sc->reopenable[i]=sc->started;
 			error_code e;
 			sc->socks[i]->close(e);
 		}
@@ -312,9 +380,10 @@ static void do_op(scenario *sc,op_t const &o)
 	else if(o.name=="pw" && o.a.size()==1) {
 		size_t i=strtoul(o.a[0].c_str(),0,10);
 		// the other end may have been closed by the script already (EPIPE): the byte is then simply not delivered
-		if(i<sc->socks.size()) {
+		if(i<sc->socks.size() && !sc->raw_closed[i]) {
 			char c='x';
-			if(sc->kind[i]==0) (void)::send(sc->peers[i],&c,1,MSG_NOSIGNAL|MSG_DONTWAIT);
+			if(sc->kind[i]==0 && sc->socks[i]->native()==io::invalid_socket) ;   // closed: nobody to write to
+			else if(sc->kind[i]==0) (void)::send(sc->peers[i],&c,1,MSG_NOSIGNAL|MSG_DONTWAIT);
 			else if(sc->kind[i]==1) {
 				// a byte into the pipe, through its write end, if that is still open
 				int wfd=sc->socks[sc->peer_idx[i]]->native();
@@ -324,7 +393,7 @@ static void do_op(scenario *sc,op_t const &o)
 	}
 	else if(o.name=="dr" && o.a.size()==1) {
 		size_t i=strtoul(o.a[0].c_str(),0,10);
-		if(i<sc->socks.size() && sc->socks[i]->native()!=io::invalid_socket) {
+		if(i<sc->socks.size() && !sc->raw_closed[i] && sc->socks[i]->native()!=io::invalid_socket) {
 			char buf[256];
 			if(sc->kind[i]==0) { while(::recv(sc->socks[i]->native(),buf,sizeof(buf),MSG_DONTWAIT)>0) ; }
 			else if(sc->kind[i]==1) { while(::read(sc->socks[i]->native(),buf,sizeof(buf))>0) ; }
@@ -407,8 +476,10 @@ static std::string run_loop_case(std::vector<std::string> const &w,int backend)
 		std::unique_ptr<io::stream_socket> s(new io::stream_socket(*sc.srv));
 		s->assign(fds[0]);
 		sc.socks.push_back(std::move(s));
+		// the peer lives at a high number: low numbers belong to the devices, so that re-use is deterministic
+		int hi=::fcntl(fds[1],F_DUPFD,200); ::close(fds[1]); fds[1]=hi;
 		sc.ours.push_back(fds[0]); sc.peers.push_back(fds[1]);
-		sc.kind.push_back(0); sc.peer_idx.push_back(int(k));
+		sc.kind.push_back(0); sc.peer_idx.push_back(int(k)); sc.raw_closed.push_back(false); sc.reopenable.push_back(false);
 		std::unique_lock<std::mutex> lk(ls::m);
 		ls::our_fds.insert(fds[0]);
 	}
@@ -422,7 +493,7 @@ static std::string run_loop_case(std::vector<std::string> const &w,int backend)
 			dev->assign(fds[e]);
 			sc.socks.push_back(std::move(dev));
 			sc.ours.push_back(fds[e]); sc.peers.push_back(-1);
-			sc.kind.push_back(e==0?1:2);
+			sc.kind.push_back(e==0?1:2); sc.raw_closed.push_back(false); sc.reopenable.push_back(false);
 			sc.peer_idx.push_back(int(ns+2*k+(e==0?1:0)));
 			std::unique_lock<std::mutex> lk(ls::m);
 			ls::our_fds.insert(fds[e]);
@@ -450,7 +521,7 @@ static std::string run_loop_case(std::vector<std::string> const &w,int backend)
 					ls::filter_fd=-1;
 					if(o.a.size()==1) {
 						size_t f=strtoul(o.a[0].c_str(),0,10);
-						if(f<sc.socks.size() && sc.socks[f]->native()!=io::invalid_socket) ls::filter_fd=sc.socks[f]->native();
+						if(f<sc.socks.size() && !sc.raw_closed[f] && sc.socks[f]->native()!=io::invalid_socket) ls::filter_fd=sc.socks[f]->native();
 					}
 					g=ls::park_gen;
 					ls::go=true;
@@ -466,6 +537,7 @@ static std::string run_loop_case(std::vector<std::string> const &w,int backend)
 				if(sc.loop.joinable()) sc.loop.join();
 				sc.srv->reset();
 				sc.started=false;
+				for(size_t q=0;q<sc.reopenable.size();q++) sc.reopenable[q]=false;
 				sc.reset_happened=true;
 			}
 		}
